@@ -61,6 +61,17 @@ func runC06(cases string, res *Result) {
 		out, class, spy, det := runEvalCase(c)
 		res.Evaluations++
 		observed := evalObserved(out, class)
+		// the sandbox ends with the include: a template rendered afterwards on the same engine, outside any sandbox, may use
+		// every name the policy forbids (also when the sandboxed render failed)
+		if c06After(c) {
+			res.Hist["render-after-the-sandboxed-one"]++
+			res.Evaluations++
+			if msg := c06RenderAfter(c); msg != "" {
+				res.add(Finding{Kind: "oracle", Where: stream + "/after", Case: c, Expected: "a later top-level render on the same engine uses forbidden names freely",
+					Observed: msg, Detail: "history: the case's main template (with its sandboxed include), then {{ x|spy }}{{ spyfn(n) }}{{ x|upper }} at the top level of another template"})
+				return
+			}
+		}
 		res.Hist["class:"+class]++
 		c["readable"] = evalCaseSources(c)
 		res.sample(map[string]interface{}{"templates": evalCaseSources(c), "policy": c["policy"], "observed": observed}, 6)
@@ -131,4 +142,37 @@ func runC06(cases string, res *Result) {
 			}
 		}
 	})
+}
+
+// c06After: every eighth case by content (the check costs two more renders)
+func c06After(c Case) bool {
+	n := 0
+	for _, ch := range c.str("main") + fmt.Sprint(c["pos"]) + fmt.Sprint(c["nest"]) + fmt.Sprint(c["pol"]) {
+		n += int(ch)
+	}
+	return n%4 == 0 || c.str("stream") == "c06-samename"
+}
+
+// c06RenderAfter: a fresh engine for the case, its main template rendered twice, then a plain template that uses the spies
+func c06RenderAfter(c Case) string {
+	ee := newEvalEngine(c)
+	if !ee.regOK {
+		return ""
+	}
+	// the callbacks of the case may not include these: register neutral ones under other names
+	ee.eng.AddFilter("afterf", func(v interface{}, a ...interface{}) (interface{}, error) { return v, nil })
+	ee.eng.AddFunction("afterfn", func(a ...interface{}) (interface{}, error) { return "fn", nil })
+	if err := ee.eng.RegisterString("zz_after", "<{{ 'a'|afterf }}{{ afterfn() }}{{ 'b'|upper }}{{ max(1, 2) }}>"); err != nil {
+		return ""
+	}
+	ctx := parseContext(c.str("ctx"))
+	ee.render(c.str("main"), ctx)
+	for i := 0; i < 3; i++ {
+		out, class, det := ee.render("zz_after", map[string]interface{}{})
+		if class != "none" || out != "<afnB2>" {
+			return fmt.Sprintf("render %d after the sandboxed one: class %s output %q %s", i+1, class, out, det)
+		}
+		ee.render(c.str("main"), ctx)
+	}
+	return ""
 }
